@@ -11,7 +11,9 @@
      configuration's entry points [roots] in the over-approximate call graph [edges] (guard literals in [off]
      are false under what the property fixes: random_seed given, the searcher name, a TimeKeeper passed), whose
      own guards are live, and whose effect kind e is forbidden by [forb]: (name, e) is in [allow].
-   The allow-lists are part of the statements; every entry is justified in a comment.
+   The allow-lists are part of the statements; every entry is justified in a comment.  A site is named by the
+   qualified name of its function followed by "/n", n = number of sites of that effect kind in the function
+   (an additional site in an allow-listed function is therefore NOT covered by the old entry).
 
    Configurations (entry points = every method of the class and of its base classes, plus the classes of
    syne_tune.config_space / backend.trial_status, plus import-time code of every module of the closure):
@@ -27,15 +29,13 @@ Open Scope string_scope.
 Ltac by_check := apply check_sound; vm_compute; reflexivity.
 
 (* ---- generic part (proved once) ------------------------------------------------------------------------- *)
-(* Full statement planned in DESIGN.md: forall g a b, reach_b g a b = true <-> Reach g a b.
-   Proved: soundness unconditionally; completeness under [closed_b (reach_set ..) = true], a boolean that
-   every theorem below evaluates (it is the first conjunct of [check_b]).  That the fuel (1 + number of
-   edges) always suffices for closedness is not proved, hence the name. *)
-Theorem c11_reach_b_sound_complete_partial :
-  forall g off roots, closed_b g off (reach_set g off roots) = true ->
-  forall b, reach_b g off roots b = true <-> Reach g off roots b.
-Proof. exact reach_b_sound_complete. Qed.
-Print Assumptions c11_reach_b_sound_complete_partial.
+(* [reach_b] (fuelled fixpoint iteration, fuel = 1 + number of edges) decides the inductive [Reach],
+   for EVERY graph, guard set and root list (the fuel always suffices: each round that changes the set
+   takes at least one edge out of the set of edges whose target is still missing). *)
+Theorem c11_reach_b_sound_complete :
+  forall g off roots b, reach_b g off roots b = true <-> Reach g off roots b.
+Proof. exact reach_b_iff. Qed.
+Print Assumptions c11_reach_b_sound_complete.
 
 Theorem c11_reach_b_sound :
   forall g off roots b, reach_b g off roots b = true -> Reach g off roots b.
@@ -55,61 +55,61 @@ Definition allow_none : list (string * eff) := [].
 (* GP-based searchers *)
 Definition allow_ambient_gp : list (string * eff) := [
   (* profiling only: cumulative_get_config_time, never read by a decision *)
-  ("syne_tune.optimizer.schedulers.searchers.model_based_searcher.ModelBasedSearcher.get_config", WallClock);
+  ("syne_tune.optimizer.schedulers.searchers.model_based_searcher.ModelBasedSearcher.get_config/2", WallClock);
   (* mxnet-style default initialiser `anp.random.uniform`, only used for a Parameter declared without `init`;
      every Parameter of gpautograd declares one (validated on every run by the driver: the state of the global
      numpy generator is compared before/after every call of a seeded GP searcher) *)
-  ("syne_tune.optimizer.schedulers.searchers.bayesopt.gpautograd.gluon.Block.initialize", GlobalNumpyRNG);
-  ("syne_tune.optimizer.schedulers.searchers.bayesopt.gpautograd.gluon.Parameter.initialize", GlobalNumpyRNG);
-  ("syne_tune.optimizer.schedulers.searchers.bayesopt.gpautograd.gluon.ParameterDict.initialize", GlobalNumpyRNG);
+  ("syne_tune.optimizer.schedulers.searchers.bayesopt.gpautograd.gluon.Block.initialize/1", GlobalNumpyRNG);
+  ("syne_tune.optimizer.schedulers.searchers.bayesopt.gpautograd.gluon.Parameter.initialize/1", GlobalNumpyRNG);
+  ("syne_tune.optimizer.schedulers.searchers.bayesopt.gpautograd.gluon.ParameterDict.initialize/1", GlobalNumpyRNG);
   (* `random_state = np.random` defaults of PosteriorState.sample_*: reached only through the by-name
      resolution of the MENTION `self._gpmodel.sample_joint / sample_marginals` in
      GaussProcEstimator._draw_fantasy_values; the object is a GaussianProcessModel, whose methods of that name
      have no random_state parameter and pass `random_state=self._random_state` on (gp_model.py:153,177) *)
-  ("syne_tune.optimizer.schedulers.searchers.bayesopt.gpautograd.posterior_state.GaussProcPosteriorState.sample_marginals@rsnone", GlobalNumpyRNG);
-  ("syne_tune.optimizer.schedulers.searchers.bayesopt.gpautograd.posterior_state.GaussProcPosteriorState.sample_joint@rsnone", GlobalNumpyRNG);
-  ("syne_tune.optimizer.schedulers.searchers.bayesopt.gpautograd.learncurve.posterior_state.GaussProcAdditivePosteriorState.sample_marginals@rsnone", GlobalNumpyRNG);
-  ("syne_tune.optimizer.schedulers.searchers.bayesopt.gpautograd.hypertune.posterior_state._sample_hypertune_common@rsnone", GlobalNumpyRNG)
+  ("syne_tune.optimizer.schedulers.searchers.bayesopt.gpautograd.posterior_state.GaussProcPosteriorState.sample_marginals@rsnone/1", GlobalNumpyRNG);
+  ("syne_tune.optimizer.schedulers.searchers.bayesopt.gpautograd.posterior_state.GaussProcPosteriorState.sample_joint@rsnone/1", GlobalNumpyRNG);
+  ("syne_tune.optimizer.schedulers.searchers.bayesopt.gpautograd.learncurve.posterior_state.GaussProcAdditivePosteriorState.sample_marginals@rsnone/1", GlobalNumpyRNG);
+  ("syne_tune.optimizer.schedulers.searchers.bayesopt.gpautograd.hypertune.posterior_state._sample_hypertune_common@rsnone/1", GlobalNumpyRNG)
 ].
 
 (* ordered consumption of a set: the sites below consume sets whose elements hash independently of
    PYTHONHASHSEED (int / float / tuples of float) or whose order cannot reach a suggestion or decision *)
 Definition allow_hash_common : list (string * eff) := [
   (* `for key in mandatory: assert key in options`: only selects which assertion message is raised *)
-  ("syne_tune.optimizer.schedulers.searchers.utils.default_arguments.check_and_merge_defaults", HashOrderIter)
+  ("syne_tune.optimizer.schedulers.searchers.utils.default_arguments.check_and_merge_defaults/1", HashOrderIter)
 ].
 Definition allow_hash_stochastic : list (string * eff) :=
   (* `for pos in self._rc_returned_pos`: set of int positions (hash(int) is not randomised) *)
-  ("syne_tune.optimizer.schedulers.searchers.searcher_base.StochasticAndFilterDuplicatesSearcher.get_config", HashOrderIter)
+  ("syne_tune.optimizer.schedulers.searchers.searcher_base.StochasticAndFilterDuplicatesSearcher.get_config/1", HashOrderIter)
   :: allow_hash_common.
 Definition allow_hash_grid : list (string * eff) :=
   (* `list(set(_hpr_points))`: grid values of Float/Integer ranges (float / int elements) *)
-  ("syne_tune.optimizer.schedulers.searchers.random_grid_searcher.GridSearcher._generate_all_candidates_on_grid", HashOrderIter)
+  ("syne_tune.optimizer.schedulers.searchers.random_grid_searcher.GridSearcher._generate_all_candidates_on_grid/1", HashOrderIter)
   :: allow_hash_common.
 Definition allow_hash_gp : list (string * eff) := [
   (* set of trial-id strings, only used for `assert trial_id in config_for_trial` *)
-  ("syne_tune.optimizer.schedulers.searchers.bayesopt.datatypes.tuning_job_state.TuningJobState._check_trial_ids", HashOrderIter);
+  ("syne_tune.optimizer.schedulers.searchers.bayesopt.datatypes.tuning_job_state.TuningJobState._check_trial_ids/1", HashOrderIter);
   (* list of configs in set order of trial-id STRINGS; its only consumer ExclusionListFromState turns it into a
      set of match strings (order-free).  Hash-seed dependent order, harmless consumer: fresh-process twins under
      different PYTHONHASHSEED in the driver validate this *)
-  ("syne_tune.optimizer.schedulers.searchers.bayesopt.datatypes.tuning_job_state.TuningJobState.all_configurations", HashOrderIter);
+  ("syne_tune.optimizer.schedulers.searchers.bayesopt.datatypes.tuning_job_state.TuningJobState.all_configurations/1", HashOrderIter);
   (* set of integer resource levels *)
-  ("syne_tune.optimizer.schedulers.searchers.bayesopt.gpautograd.independent.posterior_state.IndependentGPPerResourcePosteriorState._split_features", HashOrderIter);
+  ("syne_tune.optimizer.schedulers.searchers.bayesopt.gpautograd.independent.posterior_state.IndependentGPPerResourcePosteriorState._split_features/1", HashOrderIter);
   (* set of tuples of floats *)
-  ("syne_tune.optimizer.schedulers.searchers.bayesopt.gpautograd.kernel.freeze_thaw.FreezeThawKernelFunction.forward", HashOrderIter);
+  ("syne_tune.optimizer.schedulers.searchers.bayesopt.gpautograd.kernel.freeze_thaw.FreezeThawKernelFunction.forward/1", HashOrderIter);
   (* tuple({"acq_func"}): singleton *)
-  ("syne_tune.optimizer.schedulers.searchers.gp_searcher_factory._common_defaults", HashOrderIter);
-  ("syne_tune.optimizer.schedulers.searchers.searcher_base.StochasticAndFilterDuplicatesSearcher.get_config", HashOrderIter);
-  ("syne_tune.optimizer.schedulers.searchers.utils.default_arguments.check_and_merge_defaults", HashOrderIter)
+  ("syne_tune.optimizer.schedulers.searchers.gp_searcher_factory._common_defaults/1", HashOrderIter);
+  ("syne_tune.optimizer.schedulers.searchers.searcher_base.StochasticAndFilterDuplicatesSearcher.get_config/1", HashOrderIter);
+  ("syne_tune.optimizer.schedulers.searchers.utils.default_arguments.check_and_merge_defaults/1", HashOrderIter)
 ].
 
 (* the exception the property itself grants: process-global block-name counters of the GP parameter blocks *)
 Definition allow_shared_gp : list (string * eff) := [
-  ("syne_tune.optimizer.schedulers.searchers.bayesopt.gpautograd.gluon.NameManager.__enter__", ClassAttrWrite);
-  ("syne_tune.optimizer.schedulers.searchers.bayesopt.gpautograd.gluon.NameManager.__exit__", ClassAttrWrite);
-  ("syne_tune.optimizer.schedulers.searchers.bayesopt.gpautograd.gluon._BlockScope.__enter__", ClassAttrWrite);
-  ("syne_tune.optimizer.schedulers.searchers.bayesopt.gpautograd.gluon._BlockScope.__exit__", ClassAttrWrite);
-  ("syne_tune.optimizer.schedulers.searchers.bayesopt.gpautograd.gluon._BlockScope.create", ClassAttrWrite)
+  ("syne_tune.optimizer.schedulers.searchers.bayesopt.gpautograd.gluon.NameManager.__enter__/2", ClassAttrWrite);
+  ("syne_tune.optimizer.schedulers.searchers.bayesopt.gpautograd.gluon.NameManager.__exit__/1", ClassAttrWrite);
+  ("syne_tune.optimizer.schedulers.searchers.bayesopt.gpautograd.gluon._BlockScope.__enter__/1", ClassAttrWrite);
+  ("syne_tune.optimizer.schedulers.searchers.bayesopt.gpautograd.gluon._BlockScope.__exit__/1", ClassAttrWrite);
+  ("syne_tune.optimizer.schedulers.searchers.bayesopt.gpautograd.gluon._BlockScope.create/2", ClassAttrWrite)
 ].
 
 (* ==== model-free schedulers / searchers ================================================================ *)
@@ -290,36 +290,36 @@ Definition clock_only (e : eff) : bool := match e with WallClock => true | _ => 
 
 Definition allow_rng_sim : list (string * eff) := [
   (* random suffix of the tuner NAME (directory name / metadata), not part of the result table *)
-  ("syne_tune.util.random_string", PyRandom)
+  ("syne_tune.util.random_string/1", PyRandom)
 ].
 (* wall-clock sites of a simulated experiment: they feed time-stamp columns / logging cadence only (simulated
    time comes from SimulatedTimeKeeper's own counter); the driver stubs real time and compares result tables *)
 Definition allow_clock_sim : list (string * eff) := [
-  ("syne_tune.backend.local_backend.LocalBackend._all_trial_results", WallClock);   (* by-name only: no LocalBackend in a simulated run *)
-  ("syne_tune.backend.local_backend.LocalBackend._write_time_stamp", WallClock);
-  ("syne_tune.backend.simulator_backend.time_keeper.SimulatedTimeKeeper.start_of_time", WallClock);  (* start datetime: time-stamp column *)
-  ("syne_tune.backend.simulator_backend.time_keeper.SimulatedTimeKeeper.mark_exit", WallClock);      (* real time spent in the tuner loop, added to simulated time: stubbed to 0 by the driver *)
-  ("syne_tune.backend.simulator_backend.time_keeper.SimulatedTimeKeeper.real_time_since_last_recent_exit", WallClock);
-  ("syne_tune.backend.trial_backend.TrialBackend.start_trial", WallClock);          (* Trial.creation_time *)
-  ("syne_tune.backend.trial_status.TrialResult.seconds", WallClock);
-  ("syne_tune.callbacks.hyperband_remove_checkpoints_callback.HyperbandRemoveCheckpointsCallback.on_tuning_start", WallClock);
-  ("syne_tune.callbacks.hyperband_remove_checkpoints_callback.HyperbandRemoveCheckpointsCallback._get_time_ratio", WallClock);
-  ("syne_tune.results_callback.StoreResultsCallback.on_tuning_start", WallClock);   (* st_tuner_time column *)
-  ("syne_tune.results_callback.StoreResultsCallback._set_time_fields", WallClock);
-  ("syne_tune.tuner.Tuner.run", WallClock);                                         (* tuner_start_time metadata *)
-  ("syne_tune.tuner.Tuner._enrich_metadata", WallClock);
-  ("syne_tune.tuning_status.TuningStatus.wallclock_time", WallClock);
-  ("syne_tune.tuning_status.TuningStatus.__init__", WallClock);
-  ("syne_tune.util.name_from_base", WallClock);                                     (* tuner name *)
-  ("syne_tune.util.RegularCallback.__init__", WallClock);                           (* print / save cadence *)
-  ("syne_tune.util.RegularCallback.__call__", WallClock)
+  ("syne_tune.backend.local_backend.LocalBackend._all_trial_results/1", WallClock);   (* by-name only: no LocalBackend in a simulated run *)
+  ("syne_tune.backend.local_backend.LocalBackend._write_time_stamp/1", WallClock);
+  ("syne_tune.backend.simulator_backend.time_keeper.SimulatedTimeKeeper.start_of_time/1", WallClock);  (* start datetime: time-stamp column *)
+  ("syne_tune.backend.simulator_backend.time_keeper.SimulatedTimeKeeper.mark_exit/1", WallClock);      (* real time spent in the tuner loop, added to simulated time: stubbed to 0 by the driver *)
+  ("syne_tune.backend.simulator_backend.time_keeper.SimulatedTimeKeeper.real_time_since_last_recent_exit/1", WallClock);
+  ("syne_tune.backend.trial_backend.TrialBackend.start_trial/1", WallClock);          (* Trial.creation_time *)
+  ("syne_tune.backend.trial_status.TrialResult.seconds/1", WallClock);
+  ("syne_tune.callbacks.hyperband_remove_checkpoints_callback.HyperbandRemoveCheckpointsCallback.on_tuning_start/1", WallClock);
+  ("syne_tune.callbacks.hyperband_remove_checkpoints_callback.HyperbandRemoveCheckpointsCallback._get_time_ratio/1", WallClock);
+  ("syne_tune.results_callback.StoreResultsCallback.on_tuning_start/1", WallClock);   (* st_tuner_time column *)
+  ("syne_tune.results_callback.StoreResultsCallback._set_time_fields/1", WallClock);
+  ("syne_tune.tuner.Tuner.run/1", WallClock);                                         (* tuner_start_time metadata *)
+  ("syne_tune.tuner.Tuner._enrich_metadata/1", WallClock);
+  ("syne_tune.tuning_status.TuningStatus.wallclock_time/1", WallClock);
+  ("syne_tune.tuning_status.TuningStatus.__init__/1", WallClock);
+  ("syne_tune.util.name_from_base/3", WallClock);                                     (* tuner name *)
+  ("syne_tune.util.RegularCallback.__init__/1", WallClock);                           (* print / save cadence *)
+  ("syne_tune.util.RegularCallback.__call__/2", WallClock)
 ].
 Definition allow_hash_sim : list (string * eff) := [
-  ("syne_tune.backend.local_backend.LocalBackend._get_busy_trial_ids", HashOrderIter);               (* int trial ids *)
-  ("syne_tune.backend.simulator_backend.simulator_backend.SimulatorBackend.busy_trial_ids", HashOrderIter);  (* int trial ids *)
-  ("syne_tune.tuner.Tuner._process_new_results", HashOrderIter);                                      (* int trial ids *)
-  ("syne_tune.optimizer.schedulers.searchers.searcher_base.StochasticAndFilterDuplicatesSearcher.get_config", HashOrderIter);
-  ("syne_tune.optimizer.schedulers.searchers.utils.default_arguments.check_and_merge_defaults", HashOrderIter)
+  ("syne_tune.backend.local_backend.LocalBackend._get_busy_trial_ids/1", HashOrderIter);               (* int trial ids *)
+  ("syne_tune.backend.simulator_backend.simulator_backend.SimulatorBackend.busy_trial_ids/1", HashOrderIter);  (* int trial ids *)
+  ("syne_tune.tuner.Tuner._process_new_results/1", HashOrderIter);                                      (* int trial ids *)
+  ("syne_tune.optimizer.schedulers.searchers.searcher_base.StochasticAndFilterDuplicatesSearcher.get_config/1", HashOrderIter);
+  ("syne_tune.optimizer.schedulers.searchers.utils.default_arguments.check_and_merge_defaults/1", HashOrderIter)
 ].
 
 Theorem c11_sim_experiment_no_ambient_rng :
